@@ -153,8 +153,13 @@ def gen_scenario(rng, mode):
     pre = rng.choice(['none', 'run', 'run+edit', 'run+edit']) if mode == 'kill' else rng.choice(['none', 'run+edit'])
     failing = [rng.choice(names)] if rng.random() < 0.3 else []
     edits = [i for i in range(n) if rng.random() < 0.6] or [0]
+    cont = rng.random() < 0.5
+    if mode == 'kill' and runner != 'serial' and failing:
+        # a parallel run cut short by a failure is not deterministic (which in-flight tasks still get processed
+        # depends on timing), so the reference run would not predict the killed run's effects: keep --continue
+        cont = True
     sc = {'tasks': tasks, 'backend': backend, 'dep_file': 'db', 'runner': runner, 'pre': pre, 'failing': failing,
-          'edits': edits, 'mode': mode, 'continue': rng.random() < 0.5}
+          'edits': edits, 'mode': mode, 'continue': cont}
     if mode == 'interrupt':
         # interrupt a task that will really execute: any task without prior DB, an edited one otherwise
         cands = names if pre == 'none' else [names[i] for i in edits]
